@@ -650,8 +650,8 @@ pub fn run(run: &mut Run) -> Result<(), String> {
                 plan.dfrc = Some((0..960, 16, b(1, 0)));
                 plan.lines = Some(b(2, 0));
             } else {
-                plan.start = Some(b(4, 0));
-                plan.r960 = Some(b(2, 0));
+                plan.start = Some(b(5, 0));
+                plan.r960 = Some(b(3, 0));
                 plan.dfrc = Some((0..960, 1, b(1, 0)));
                 plan.lines = Some(b(3, 0));
             }
@@ -713,7 +713,7 @@ pub fn run(run: &mut Run) -> Result<(), String> {
                     plan.raws.push((Box::new(Checks { n: 2 }), b(0, 0)));
                 }
             } else {
-                plan.start = Some(b(4, 2));
+                plan.start = Some(b(5, 1));
                 plan.mid = Some(b(3, 2));
                 plan.r960 = Some(b(2, 1));
                 plan.clock = Some(b(3, 2));
